@@ -123,6 +123,9 @@ func vhPaginate[N any, E any](sp vhSpec[N, E]) {
 	if in.Last != nil && hi-lo > *in.Last {
 		lo = hi - *in.Last
 	}
+	// the window bounds are decided by the path; make them concrete indices
+	lo = rt.Concrete(lo, 0, n)
+	hi = rt.Concrete(hi, 0, n)
 	rt.Observe("lo", lo)
 	rt.Observe("hi", hi)
 	rt.Observe("n", n)
